@@ -453,7 +453,23 @@ fn react(g: &mut Gen, rng: &mut Rng, peers: &[u8], tx: &[u8], faulty: bool) {
                                 &[],
                             ),
                             4 => status_req(ts, d.h.da), // a request instead of a response
-                            5 => token(ts, d.h.da),
+                            5 => {
+                                if rng.bool() {
+                                    token(ts, d.h.da)
+                                } else {
+                                    // a response from the right station but to a foreign destination (incl. broadcast)
+                                    enc(
+                                        &DataTelegramHeader {
+                                            da: *rng.pick(&[127u8, 126, ts.wrapping_add(1) & 0x7f, 0]),
+                                            sa: d.h.da,
+                                            dsap: None,
+                                            ssap: None,
+                                            fc: FunctionCode::Response { state: ResponseState::Slave, status: ResponseStatus::Ok },
+                                        },
+                                        &rng.bytes_below(4),
+                                    )
+                                }
+                            }
                             _ => rng.bytes_below(8),
                         }
                     };
@@ -534,6 +550,13 @@ fn prep_in_ring(g: &mut Gen, rng: &mut Rng, ring: &[u8]) {
             g.rx(&token(da, sa));
             g.now += g.bits(33 + 3 * 11 + rng.below(40));
             g.poll();
+            if rng.chance(1, 12) {
+                let bad = *rng.pick(&[126u8, 127, 128, 200, 255]);
+                let t = if rng.bool() { token(bad, sa) } else { token(da, bad) };
+                g.rx(&t);
+                g.now += g.bits(33 + 3 * 11);
+                g.poll();
+            }
         }
     }
     let ps = g.st.fdl.inspect_token_ring().previous_station();
@@ -721,6 +744,14 @@ pub fn gen(ops: &mut Vec<String>, seed: u64, thorough: bool) {
                     g.rx(&token(da, sa));
                     g.now += g.bits(33 + rng.below(100));
                     g.poll();
+                    if faulty && rng.chance(1, 5) {
+                        // a token from/to an address that cannot exist
+                        let bad = *rng.pick(&[126u8, 127, 128, 200, 255]);
+                        let t = if rng.bool() { token(bad, sa) } else { token(da, bad) };
+                        g.rx(&t);
+                        g.now += g.bits(33 + 40);
+                        g.poll();
+                    }
                     // the predecessor polls us for our status now and then
                     if r >= 1 && rng.chance(1, 3) {
                         g.rx(&status_req(ts, sa));
